@@ -129,7 +129,8 @@ def GoodChan (w : WS) (c : Chan) : Prop :=
   (c.hasWriter = true → c.paused = w.paused)
 
 def Good (s : St) : Prop :=
-  (s.ws.active = true → s.ws.pat.isSome = true) ∧ ∀ c ∈ s.chans, GoodChan s.ws c
+  ((s.ws.active = true → s.ws.pat.isSome = true) ∧ (s.running = false → s.ws.active = false)) ∧
+    ∀ c ∈ s.chans, GoodChan s.ws c
 
 theorem good_init (proj : List Bool) (pre : List Run) (nums : List Int) : Good (St.init proj pre nums) := by
   refine ⟨by simp [St.init], ?_⟩
@@ -251,29 +252,53 @@ theorem goodChan_start (w : WS) (c : Chan) (hw : c.hasWriter = false) (r : Run) 
   cases l22 <;> cases off <;> cases l3 <;> cases hp : c.proj <;>
     simp [GoodChan, Chan.start, Chan.setLJH22, Chan.setLJH3, Chan.setOFF, Chan.hasWriter, h1, h2, h3, hp]
 
+theorem reqStep_rejected (s : St) (r : List Nat) (path : Option Nat) (l22 off l3 : Bool) (map : Option Nat)
+    (h : (reqStep s r path l22 off l3 map).2 = true) : (reqStep s r path l22 off l3 map).1 = s := by
+  simp only [reqStep] at h ⊢
+  cases hc : classify r with
+  | pause => simp [hc] at h
+  | unpause lbl =>
+    simp only [hc] at h ⊢
+    split at h
+    · split <;> simp_all
+    · simp at h
+  | unpauseBad => rfl
+  | stop => simp [hc] at h
+  | invalid => rfl
+  | start =>
+    simp only [hc] at h ⊢
+    unfold startReq at h ⊢
+    cases ht : startTarget s path l22 off l3 map with
+    | none => rfl
+    | some r => simp [ht] at h
+
+theorem step_req_run (s : St) (r : List Nat) (path : Option Nat) (l22 off l3 : Bool) (map : Option Nat)
+    (hr : s.running = true) : step s (.req r path l22 off l3 map) = reqStep s r path l22 off l3 map := by
+  simp [step, hr]
+
+theorem step_req_down (s : St) (r : List Nat) (path : Option Nat) (l22 off l3 : Bool) (map : Option Nat)
+    (hr : s.running = false) : step s (.req r path l22 off l3 map) = (s, true) := by
+  simp [step, hr]
+
 /-- a rejected request leaves the whole state (reported state, channels, directories, files) unchanged -/
 theorem C06_rejected_is_noop (s : St) (op : Op) (h : (step s op).2 = true) : (step s op).1 = s := by
   cases op with
   | req r path l22 off l3 map =>
-    simp only [step] at h ⊢
-    cases hc : classify r with
-    | pause => simp [hc] at h
-    | unpause lbl =>
-      simp only [hc] at h ⊢
-      split at h
-      · split <;> simp_all
-      · simp at h
-    | unpauseBad => rfl
-    | stop => simp [hc] at h
-    | invalid => rfl
-    | start =>
-      simp only [hc] at h ⊢
-      unfold startReq at h ⊢
-      cases ht : startTarget s path l22 off l3 map with
-      | none => rfl
-      | some r => simp [ht] at h
+    cases hr : s.running with
+    | true =>
+      rw [step_req_run s r path l22 off l3 map hr] at h ⊢
+      exact reqStep_rejected s r path l22 off l3 map h
+    | false => rw [step_req_down s r path l22 off l3 map hr]
   | pub counts => simp [step] at h
   | proj ch => simp [step] at h
+  | srcEnd =>
+    simp only [step] at h
+    split at h <;> simp at h
+  | srcStart =>
+    simp only [step] at h ⊢
+    split
+    · rfl
+    · rename_i hh; simp [hh] at h
 
 theorem firstUnused_spec (dirs : List Run) (pid : Nat) : ∀ (fuel i n : Nat),
     firstUnusedFrom dirs pid i fuel = some n → (⟨pid, n⟩ : Run) ∉ dirs ∧ i ≤ n ∧ n < i + fuel := by
@@ -337,64 +362,101 @@ theorem startReq_ok (s : St) (path : Option Nat) (l22 off l3 : Bool) (map : Opti
     simp only [ht] at h
     exact ⟨r, rfl, (Prod.mk.inj h).1.symm⟩
 
-theorem good_step (s : St) (op : Op) (hg : Good s) : Good (step s op).1 := by
+theorem good_reqStep (s : St) (r : List Nat) (path : Option Nat) (l22 off l3 : Bool) (map : Option Nat)
+    (hg : Good s) (hr : s.running = true) : Good (reqStep s r path l22 off l3 map).1 := by
   obtain ⟨hp, hc⟩ := hg
-  cases op with
-  | req r path l22 off l3 map =>
-    simp only [step]
-    cases hk : classify r with
-    | pause =>
-      refine ⟨hp, ?_⟩
+  simp only [reqStep]
+  cases hk : classify r with
+  | pause =>
+    refine ⟨hp, ?_⟩
+    intro c' h'
+    simp only [List.mem_map] at h'
+    obtain ⟨c, hcm, rfl⟩ := h'
+    obtain ⟨a, b, d, _⟩ := hc c hcm
+    exact ⟨a, b, d, fun _ => rfl⟩
+  | unpause lbl =>
+    simp only
+    split
+    · exact ⟨hp, hc⟩
+    · refine ⟨hp, ?_⟩
       intro c' h'
       simp only [List.mem_map] at h'
       obtain ⟨c, hcm, rfl⟩ := h'
       obtain ⟨a, b, d, _⟩ := hc c hcm
       exact ⟨a, b, d, fun _ => rfl⟩
-    | unpause lbl =>
-      simp only
-      split
-      · exact ⟨hp, hc⟩
-      · refine ⟨hp, ?_⟩
+  | unpauseBad => exact ⟨hp, hc⟩
+  | invalid => exact ⟨hp, hc⟩
+  | stop =>
+    refine ⟨by simp [WS.stop], ?_⟩
+    intro c' h'
+    simp only [List.mem_map] at h'
+    obtain ⟨c, _, rfl⟩ := h'
+    simp [GoodChan, Chan.removeAll, WS.stop, Chan.hasWriter]
+  | start =>
+    simp only
+    cases hs : startReq s path l22 off l3 map with
+    | mk s' e =>
+      cases e with
+      | true =>
+        have := reqStep_rejected s r path l22 off l3 map (by simp [reqStep, hk, hs])
+        simp only [reqStep, hk, hs] at this
+        rw [this]; exact ⟨hp, hc⟩
+      | false =>
+        obtain ⟨run, ht, rfl⟩ := startReq_ok s path l22 off l3 map s' hs
+        obtain ⟨_, hnw, _, _, _⟩ := startTarget_some s path l22 off l3 map run ht
+        refine ⟨by simp [hr], ?_⟩
         intro c' h'
         simp only [List.mem_map] at h'
         obtain ⟨c, hcm, rfl⟩ := h'
-        obtain ⟨a, b, d, _⟩ := hc c hcm
-        exact ⟨a, b, d, fun _ => rfl⟩
-    | unpauseBad => exact ⟨hp, hc⟩
-    | invalid => exact ⟨hp, hc⟩
-    | stop =>
-      refine ⟨by simp [WS.stop], ?_⟩
-      intro c' h'
-      simp only [List.mem_map] at h'
-      obtain ⟨c, _, rfl⟩ := h'
-      simp [GoodChan, Chan.removeAll, WS.stop, Chan.hasWriter]
-    | start =>
-      simp only
-      cases hs : startReq s path l22 off l3 map with
-      | mk s' e =>
-        cases e with
-        | true =>
-          have := C06_rejected_is_noop s (.req r path l22 off l3 map) (by simp [step, hk, hs])
-          simp only [step, hk, hs] at this
-          rw [this]; exact ⟨hp, hc⟩
-        | false =>
-          obtain ⟨run, ht, rfl⟩ := startReq_ok s path l22 off l3 map s' hs
-          obtain ⟨_, hnw, _, _, _⟩ := startTarget_some s path l22 off l3 map run ht
-          refine ⟨by simp, ?_⟩
-          intro c' h'
-          simp only [List.mem_map] at h'
-          obtain ⟨c, hcm, rfl⟩ := h'
-          exact goodChan_start { s.ws with base := some run.pid } c (hnw c hcm) run l22 off l3
+        exact goodChan_start { s.ws with base := some run.pid } c (hnw c hcm) run l22 off l3
+
+theorem good_step (s : St) (op : Op) (hg : Good s) : Good (step s op).1 := by
+  cases op with
+  | req r path l22 off l3 map =>
+    cases hr : s.running with
+    | true => rw [step_req_run s r path l22 off l3 map hr]; exact good_reqStep s r path l22 off l3 map hg hr
+    | false => rw [step_req_down s r path l22 off l3 map hr]; exact hg
   | pub counts =>
+    obtain ⟨hp, hc⟩ := hg
     refine ⟨hp, ?_⟩
     intro c' h'
     obtain ⟨c, hcm, m, rfl⟩ := pubAll_chans s.chans 0 counts s.files c' h'
     exact hc c hcm
   | proj ch =>
+    obtain ⟨hp, hc⟩ := hg
     refine ⟨hp, ?_⟩
     intro c' h'
     obtain ⟨c, hcm, p, rfl⟩ := setProj_chans s.chans ch c' h'
     exact hc c hcm
+  | srcEnd =>
+    obtain ⟨hp, hc⟩ := hg
+    simp only [step]
+    split
+    · refine ⟨by simp [WS.stop], ?_⟩
+      intro c' h'
+      simp only [List.mem_map] at h'
+      obtain ⟨c, _, rfl⟩ := h'
+      simp [GoodChan, Chan.removeAll, WS.stop, Chan.hasWriter]
+    · rename_i hh
+      refine ⟨⟨hp.1, fun _ => ?_⟩, hc⟩
+      cases hr : s.running with
+      | false => exact hp.2 hr
+      | true => cases ha : s.ws.active with
+        | false => rfl
+        | true => simp [hr, ha] at hh
+  | srcStart =>
+    obtain ⟨hp, hc⟩ := hg
+    simp only [step]
+    split
+    · exact ⟨hp, hc⟩
+    · rename_i hh
+      have hr : s.running = false := by simpa using hh
+      have ha := hp.2 hr
+      refine ⟨⟨hp.1, by simp⟩, ?_⟩
+      intro c' h'
+      simp only [List.mem_map] at h'
+      obtain ⟨c, _, rfl⟩ := h'
+      simp [GoodChan, Chan.new, ha, Chan.hasWriter]
 
 theorem good_runOps (ops : List Op) : ∀ s, Good s → Good (runOps s ops) := by
   induction ops with
@@ -500,7 +562,11 @@ def Sim (o : OSt) (s : St) : Prop :=
 
 theorem step_req_files (s : St) (r : List Nat) (path : Option Nat) (l22 off l3 : Bool) (map : Option Nat) :
     (step s (.req r path l22 off l3 map)).1.files = s.files := by
-  simp only [step]
+  cases hr : s.running with
+  | false => rw [step_req_down s r path l22 off l3 map hr]
+  | true =>
+  rw [step_req_run s r path l22 off l3 map hr]
+  simp only [reqStep]
   cases hk : classify r with
   | pause => rfl
   | unpause lbl => simp only; split <;> rfl
@@ -513,8 +579,8 @@ theorem step_req_files (s : St) (r : List Nat) (path : Option Nat) (l22 off l3 :
     | mk s' e =>
       cases e with
       | true =>
-        have := C06_rejected_is_noop s (.req r path l22 off l3 map) (by simp [step, hk, hs])
-        simp only [step, hk, hs] at this
+        have := reqStep_rejected s r path l22 off l3 map (by simp [reqStep, hk, hs])
+        simp only [reqStep, hk, hs] at this
         rw [this]
       | false =>
         obtain ⟨run, _, rfl⟩ := startReq_ok s path l22 off l3 map s' hs
@@ -545,13 +611,17 @@ theorem chk_step_model (o : OSt) (s : St) (op : Op) (hg : Good s) (hs : Sim o s)
         ⟨by rw [hprev], sameFiles_of_eq _ _ (by rw [hprev]; intro k; rfl)⟩
       simp only [chkStep, if_true, if_pos hcond]
     | false =>
+      have hr : s.running = true := by
+        cases hr : s.running with
+        | true => rfl
+        | false => rw [step_req_down s r path l22 off l3 map hr] at herr; cases herr
       have hsame : sameFiles o.prev.files (obs (step s (.req r path l22 off l3 map)).1).files = true :=
         sameFiles_of_eq _ _ (by rw [hprev]; intro k; show stored s.files k = stored (step s _).1.files k; rw [hfiles])
       simp only [chkStep, Bool.false_eq_true, if_false, hsame, Bool.not_true]
       cases hk : classify r with
       | start =>
         simp only
-        have hst : step s (.req r path l22 off l3 map) = startReq s path l22 off l3 map := by simp [step, hk]
+        have hst : step s (.req r path l22 off l3 map) = startReq s path l22 off l3 map := by simp [step, hr, reqStep, hk]
         rw [hst] at herr ⊢
         cases hs' : startReq s path l22 off l3 map with
         | mk s' e =>
@@ -576,7 +646,7 @@ theorem chk_step_model (o : OSt) (s : St) (op : Op) (hg : Good s) (hs : Sim o s)
       | stop =>
         simp only
         have hst : (step s (.req r path l22 off l3 map)).1 =
-            { s with chans := s.chans.map (·.removeAll), ws := s.ws.stop } := by simp [step, hk]
+            { s with chans := s.chans.map (·.removeAll), ws := s.ws.stop } := by simp [step, hr, reqStep, hk]
         rw [hst]
         have hf : (obs { s with chans := s.chans.map (·.removeAll), ws := s.ws.stop }).fds = 0 := by
           simp [obs, WS.stop, openFiles_removeAll]
@@ -588,7 +658,7 @@ theorem chk_step_model (o : OSt) (s : St) (op : Op) (hg : Good s) (hs : Sim o s)
         simp only
         have hst : (step s (.req r path l22 off l3 map)).1 =
             { s with chans := s.chans.map (·.setPause true), ws := { s.ws with paused := true } } := by
-          simp [step, hk]
+          simp [step, hr, reqStep, hk]
         rw [hst]
         refine ⟨_, rfl, ⟨rfl, ?_, ?_, hdirs⟩⟩
         · simp only [List.map_map]; rw [helig]; apply List.map_congr_left; intro c _; rfl
@@ -597,7 +667,7 @@ theorem chk_step_model (o : OSt) (s : St) (op : Op) (hg : Good s) (hs : Sim o s)
         simp only
         have hst : (step s (.req r path l22 off l3 map)).1 =
             { s with chans := s.chans.map (·.setPause false), ws := { s.ws with paused := false } } := by
-          simp only [step, hk] at herr ⊢
+          simp only [step, hr, if_true, reqStep, hk] at herr ⊢
           split at herr
           · simp at herr
           · rename_i hh; simp [hh]
@@ -605,8 +675,8 @@ theorem chk_step_model (o : OSt) (s : St) (op : Op) (hg : Good s) (hs : Sim o s)
         refine ⟨_, rfl, ⟨rfl, ?_, ?_, hdirs⟩⟩
         · simp only [List.map_map]; rw [helig]; apply List.map_congr_left; intro c _; rfl
         · simp only [List.map_map]; rw [hproj]; apply List.map_congr_left; intro c _; rfl
-      | unpauseBad => simp [step, hk] at herr
-      | invalid => simp [step, hk] at herr
+      | unpauseBad => simp [step, hr, reqStep, hk] at herr
+      | invalid => simp [step, hr, reqStep, hk] at herr
   | pub counts =>
     have hst : ∀ k, stored (obs (step s (.pub counts)).1).files k =
         stored o.prev.files k + expAll o.prev.ws 0 o.elig counts k := by
@@ -627,6 +697,41 @@ theorem chk_step_model (o : OSt) (s : St) (op : Op) (hg : Good s) (hs : Sim o s)
     refine ⟨_, rfl, ⟨rfl, ?_, ?_, hdirs⟩⟩
     · simp only [step]; rw [helig, (setProj_maps s.chans ch).1]
     · simp only [step]; rw [hproj, (setProj_maps s.chans ch).2]
+  | srcEnd =>
+    have hsame : sameFiles o.prev.files (obs (step s .srcEnd).1).files = true :=
+      sameFiles_of_eq _ _ (by
+        rw [hprev]; intro k
+        show stored s.files k = stored (step s .srcEnd).1.files k
+        simp only [step]; split <;> rfl)
+    simp only [chkStep, hsame, if_true]
+    refine ⟨_, rfl, ⟨rfl, ?_, ?_, ?_⟩⟩
+    · simp only [step]; split
+      · simp only [List.map_map]; rw [helig]; apply List.map_congr_left; intro c _; rfl
+      · exact helig
+    · simp only [step]; split
+      · simp only [List.map_map]; rw [hproj]; apply List.map_congr_left; intro c _; rfl
+      · exact hproj
+    · simp only [step]; split <;> exact hdirs
+  | srcStart =>
+    cases hr : s.running with
+    | true =>
+      have hst : step s .srcStart = (s, true) := by simp [step, hr]
+      rw [hst]
+      have hsame : sameFiles o.prev.files (obs s).files = true :=
+        sameFiles_of_eq _ _ (by rw [hprev]; intro k; rfl)
+      simp only [chkStep, hsame, Bool.not_true, Bool.false_eq_true, if_false, if_true]
+      exact ⟨_, rfl, ⟨rfl, helig, hproj, hdirs⟩⟩
+    | false =>
+      have hst : step s .srcStart =
+          ({ s with running := true, chans := s.chans.map fun _ => Chan.new false }, false) := by simp [step, hr]
+      rw [hst]
+      have hsame : sameFiles o.prev.files
+          (obs { s with running := true, chans := s.chans.map fun _ => Chan.new false }).files = true :=
+        sameFiles_of_eq _ _ (by rw [hprev]; intro k; rfl)
+      simp only [chkStep, hsame, Bool.not_true, Bool.false_eq_true, if_false]
+      refine ⟨_, rfl, ⟨rfl, ?_, ?_, hdirs⟩⟩
+      · simp only [List.map_map]; rw [helig, List.map_map]; apply List.map_congr_left; intro c _; rfl
+      · simp only [List.map_map]; rw [hproj, List.map_map]; apply List.map_congr_left; intro c _; rfl
 
 theorem chk_run_model (ops : List Op) : ∀ (o : OSt) (s : St), Good s → Sim o s →
     ∃ o', chkRun o ops (runModel s ops) = .ok o' := by
@@ -666,23 +771,28 @@ theorem C06_start_fresh_dir (s s' : St) (r : List Nat) (path : Option Nat) (l22 
       some run.pid = pathOr path s.ws.base ∧
       s'.ws.active = true ∧ s'.ws.paused = false ∧
       s'.ws.l22 = l22 ∧ s'.ws.off = off ∧ s'.ws.l3 = l3 ∧ s'.files = s.files := by
-  have hst : step s (.req r path l22 off l3 map) = startReq s path l22 off l3 map := by simp [step, hk]
+  have hr : s.running = true := by
+    cases hr : s.running with
+    | true => rfl
+    | false => rw [step_req_down s r path l22 off l3 map hr] at h; cases h
+  have hst : step s (.req r path l22 off l3 map) = startReq s path l22 off l3 map := by
+    simp [step, hr, reqStep, hk]
   rw [hst] at h
   obtain ⟨run, ht, rfl⟩ := startReq_ok s path l22 off l3 map s' h
   obtain ⟨_, _, hpath, hmk, _⟩ := startTarget_some s path l22 off l3 map run ht
   refine ⟨run, rfl, (firstUnused_spec s.dirs run.pid 10000 0 run.num hmk).1, by simp, hpath.symm,
     rfl, rfl, rfl, rfl, rfl, rfl⟩
 
-/-- **C06_stop_closes_all**: STOP (from ANY state) is accepted, leaves no writer on any channel, no
+/-- **C06_stop_closes_all**: STOP (from ANY state of a running source) is accepted, leaves no writer on any channel, no
 open file, reports inactive with an empty pattern, and does not touch the stored records. -/
 theorem C06_stop_closes_all (s : St) (r : List Nat) (path : Option Nat) (l22 off l3 : Bool) (map : Option Nat)
-    (hk : classify r = .stop) :
+    (hk : classify r = .stop) (hr : s.running = true) :
     ∀ s' e, step s (.req r path l22 off l3 map) = (s', e) →
     e = false ∧ (∀ c ∈ s'.chans, c.hasWriter = false) ∧
       s'.ws.active = false ∧ s'.ws.pat = none ∧ (obs s').fds = 0 ∧ s'.files = s.files := by
   intro s' e h
   have hst : step s (.req r path l22 off l3 map) =
-      ({ s with chans := s.chans.map (·.removeAll), ws := s.ws.stop }, false) := by simp [step, hk]
+      ({ s with chans := s.chans.map (·.removeAll), ws := s.ws.stop }, false) := by simp [step, hr, reqStep, hk]
   rw [hst] at h
   obtain ⟨rfl, rfl⟩ := Prod.mk.inj h
   refine ⟨rfl, ?_, rfl, rfl, by simp [obs, WS.stop, openFiles_removeAll], rfl⟩
@@ -706,7 +816,52 @@ theorem C06_bad_map_refused (s : St) (r : List Nat) (path : Option Nat) (l22 off
       · split
         · rfl
         · simp [hm]
-  simp [step, hk, startReq, ht]
+  cases hr : s.running with
+  | false => exact step_req_down s r path l22 off l3 map hr
+  | true => simp [step, hr, reqStep, hk, startReq, ht]
+
+/-- **C06_source_end_stops_writing**: when the source ends by itself - writing active or not, PAUSED or
+not - no channel keeps a writer, no file stays open, the reported state is inactive with an empty
+pattern (and not paused if writing was active), and the stored records are untouched. -/
+theorem C06_source_end_stops_writing (s : St) (hg : Good s) :
+    let s' := (step s .srcEnd).1
+    s'.running = false ∧ s'.ws.active = false ∧ (∀ c ∈ s'.chans, c.hasWriter = false) ∧
+      (obs s').fds = 0 ∧ s'.files = s.files := by
+  show (step s .srcEnd).1.running = false ∧ (step s .srcEnd).1.ws.active = false ∧
+    (∀ c ∈ (step s .srcEnd).1.chans, c.hasWriter = false) ∧ (obs (step s .srcEnd).1).fds = 0 ∧
+    (step s .srcEnd).1.files = s.files
+  simp only [step]
+  split
+  · refine ⟨rfl, rfl, ?_, by simp [obs, WS.stop, openFiles_removeAll], rfl⟩
+    intro c hc
+    simp only [List.mem_map] at hc
+    obtain ⟨c0, _, rfl⟩ := hc
+    simp [Chan.removeAll, Chan.hasWriter]
+  · rename_i hh
+    have ha : s.ws.active = false := by
+      cases hr : s.running with
+      | false => exact hg.1.2 hr
+      | true => cases ha : s.ws.active with
+        | false => rfl
+        | true => simp [hr, ha] at hh
+    have hnw : ∀ c ∈ s.chans, c.hasWriter = false := by
+      intro c hc
+      obtain ⟨h1, h2, h3, _⟩ := hg.2 c hc
+      simp [Chan.hasWriter, h1, h2, h3, ha]
+    refine ⟨rfl, ha, hnw, ?_, rfl⟩
+    have hz : ∀ (cs : List Chan) (i : Nat), (∀ c ∈ cs, c.hasWriter = false) → openFilesFrom s.files i cs = 0 := by
+      intro cs
+      induction cs with
+      | nil => intro i _; rfl
+      | cons c cs ih =>
+        intro i h
+        have hc := h c (by simp)
+        have e1 : c.w22 = none := by cases hx : c.w22 <;> simp [Chan.hasWriter, hx] at hc ⊢
+        have e2 : c.w3 = none := by cases hx : c.w3 <;> simp [Chan.hasWriter, hx] at hc ⊢
+        have e3 : c.woff = none := by cases hx : c.woff <;> simp [Chan.hasWriter, hx] at hc ⊢
+        simp only [openFilesFrom, ih (i + 1) (fun c' hc' => h c' (by simp [hc']))]
+        simp [Chan.openFiles, Chan.writer, FT.all, e1, e2, e3]
+    simp [obs, ha, hz s.chans 0 hnw]
 
 /-! ### Non-vacuity: concrete histories (requests as byte strings) -/
 
@@ -735,6 +890,16 @@ example :
     step s0 (.req sSTART (some 0) true false false (some 4)) = (s0, true) ∧
       (step s0 (.req sSTART (some 0) true false false none)).2 = false ∧
       mapOk (St.init [false, false, false] [] [3, 1, 2]) (some 3) = true := by decide
+
+/-- START; PAUSE; the source ends by itself; restart; UNPAUSE; publish: inactive, nothing stored; a new
+START then writes into run 1 -/
+example :
+    let s := runOps (St.init [false] [] [1])
+      [.req sSTART (some 0) true false false none, .pub [1], .req sPAUSE none false false false none, .srcEnd,
+       .req sUNPAUSE none false false false none, .srcStart, .req sUNPAUSE none false false false none, .pub [2],
+       .req sSTART none true false false none, .pub [4]]
+    stored s.files ⟨⟨0, 0⟩, 0, .ljh22⟩ = 1 ∧ stored s.files ⟨⟨0, 1⟩, 0, .ljh22⟩ = 4 ∧ s.ws.pat = some ⟨0, 1⟩ := by
+  decide
 
 example : classify [117, 110, 112, 97, 117, 115, 101, 32, 65] = .unpause (some [65]) := by decide
 example : classify (sUNPAUSE ++ [120]) = .unpauseBad := by decide
